@@ -33,11 +33,13 @@ func init() {
 			Trusted:     commonTrusted,
 		},
 		Mutants: []Mutant{
+			{Name: "piped value checked against the slice type of a purely variadic function (original defect)", File: "eval.go", Old: "\t\tif slot >= numArgsRequired {\n\t\t\tin = in.Elem() // no fixed parameter left: the piped value is the first element of the variadic tail\n\t\t}\n", New: "", Rule: "C14.count"},
+			{Name: "variadic tail converted to the slice type", File: "eval.go", Old: "in := fnType.In(numArgsRequired).Elem()", New: "in := fnType.In(numArgsRequired)", Rule: "C14.count"},
 			{Name: "len counts runes for strings (agent seed C14/4)", File: "default.go", Old: "\t\t\tcase reflect.Array, reflect.Chan, reflect.Slice, reflect.Map, reflect.String:\n\t\t\t\treturn reflect.ValueOf(expression.Len())", New: "\t\t\tcase reflect.Array, reflect.Chan, reflect.Slice, reflect.Map:\n\t\t\t\treturn reflect.ValueOf(expression.Len())\n\t\t\tcase reflect.String:\n\t\t\t\treturn reflect.ValueOf(len([]rune(expression.String())))", Rule: "C14.table"},
 			{Name: "argument vector shared between nested calls (agent seed C14/2)", File: "eval.go", Old: "\targValues := make([]reflect.Value, numArgs)\n", New: "\tif cap(st.argBuf) < numArgs {\n\t\tst.argBuf = make([]reflect.Value, numArgs, numArgs+4)\n\t}\n\targValues := st.argBuf[:numArgs]\n", More: []Edit{{File: "eval.go", Old: "\tcontext reflect.Value\n}", New: "\tcontext reflect.Value\n\targBuf  []reflect.Value\n}"}}, Rule: "C14.count"},
 			{Name: "NumOfArguments counts the piped value even when a slot consumes it", File: "func.go", Old: "\tnum := len(a.args.Exprs)\n\tif a.pipedVal != nil && !a.args.HasPipeSlot {", New: "\tnum := len(a.args.Exprs)\n\tif a.pipedVal != nil {", Rule: "C14.shift"},
 			{Name: "Get does not shift the index for an implicit piped argument", File: "func.go", Old: "\t\tif argumentIndex == 0 {\n\t\t\treturn *a.pipedVal\n\t\t}\n\t\t// call has an implicit first argument, so we adjust the\n\t\t// index before looking it up in the parsed a.args slice\n\t\targumentIndex--", New: "\t\tif argumentIndex == 0 {\n\t\t\treturn *a.pipedVal\n\t\t}", Rule: "C14.shift"},
-			{Name: "evaluateArgs evaluates the underscore slot as an expression", File: "eval.go", Old: "\t\tif args.Exprs[i].Type() == NodeUnderscore {\n\t\t\tterm = *pipedArg\n\t\t} else {\n\t\t\tterm = st.evalPrimaryExpressionGroup(args.Exprs[i])\n\t\t}\n\t\tif !term.IsValid() {\n\t\t\treturn nil, fmt.Errorf(\"argument for position %d in %s is not a valid value\", slot, fnType)\n\t\t}\n\t\tif !term.Type().AssignableTo(in) {\n\t\t\tif !term.Type().ConvertibleTo(in) {\n\t\t\t\treturn nil, fmt.Errorf(\"argument for position %d in %s of type %s is not convertible to %s\", slot, fnType, term.Type(), in)\n\t\t\t}\n\t\t\tterm = term.Convert(in)\n\t\t}\n\t\targValues[slot] = term\n\t\ti++\n\t\tslot++\n\t}\n\n\tif isVariadic {", New: "\t\tterm = st.evalPrimaryExpressionGroup(args.Exprs[i])\n\t\tif !term.IsValid() {\n\t\t\treturn nil, fmt.Errorf(\"argument for position %d in %s is not a valid value\", slot, fnType)\n\t\t}\n\t\tif !term.Type().AssignableTo(in) {\n\t\t\tif !term.Type().ConvertibleTo(in) {\n\t\t\t\treturn nil, fmt.Errorf(\"argument for position %d in %s of type %s is not convertible to %s\", slot, fnType, term.Type(), in)\n\t\t\t}\n\t\t\tterm = term.Convert(in)\n\t\t}\n\t\targValues[slot] = term\n\t\ti++\n\t\tslot++\n\t}\n\n\tif isVariadic {", Rule: "C14.slot"},
+			{Name: "evaluateArgs evaluates the underscore slot as an expression", File: "eval.go", Old: "\t\tif args.Exprs[i].Type() == NodeUnderscore {\n\t\t\tif pipedArg == nil {\n\t\t\t\treturn nil, fmt.Errorf(\"argument for position %d in %s is a '_' placeholder, but there is no piped value\", slot, fnType)\n\t\t\t}\n\t\t\tterm = *pipedArg\n\t\t} else {\n\t\t\tterm = st.evalPrimaryExpressionGroup(args.Exprs[i])\n\t\t}\n\t\tif !term.IsValid() {\n\t\t\treturn nil, fmt.Errorf(\"argument for position %d in %s is not a valid value\", slot, fnType)\n\t\t}\n\t\tif !term.Type().AssignableTo(in) {\n\t\t\tif !term.Type().ConvertibleTo(in) {\n\t\t\t\treturn nil, fmt.Errorf(\"argument for position %d in %s of type %s is not convertible to %s\", slot, fnType, term.Type(), in)\n\t\t\t}\n\t\t\tterm = term.Convert(in)\n\t\t}\n\t\targValues[slot] = term\n\t\ti++\n\t\tslot++\n\t}\n\n\tif isVariadic {", New: "\t\tterm = st.evalPrimaryExpressionGroup(args.Exprs[i])\n\t\tif !term.IsValid() {\n\t\t\treturn nil, fmt.Errorf(\"argument for position %d in %s is not a valid value\", slot, fnType)\n\t\t}\n\t\tif !term.Type().AssignableTo(in) {\n\t\t\tif !term.Type().ConvertibleTo(in) {\n\t\t\t\treturn nil, fmt.Errorf(\"argument for position %d in %s of type %s is not convertible to %s\", slot, fnType, term.Type(), in)\n\t\t\t}\n\t\t\tterm = term.Convert(in)\n\t\t}\n\t\targValues[slot] = term\n\t\ti++\n\t\tslot++\n\t}\n\n\tif isVariadic {", Rule: "C14.slot"},
 			{Name: "second pipe slot silently accepted", File: "parse.go", Old: "\t\t\tif args.HasPipeSlot {\n\t\t\t\tt.errorf(\"found two pipe slot markers ('_') for the same function call\")\n\t\t\t}\n", New: "", Rule: "C14.slot"},
 			{Name: "prefix-colon arguments parsed by a different routine", File: "parse.go", Old: "\tcase itemColon:\n\t\tcmd.CallArgs = t.parseArguments()", New: "\tcase itemColon:\n\t\tcmd.CallArgs = CallArgs{Exprs: []Expression{t.expression(\"command\", \"argument\")}}", Rule: "C14.forms"},
 			{Name: "piped value dropped for jet.Func callees", File: "eval.go", Old: "Arguments{runtime: st, args: args, pipedVal: pipedArg}", New: "Arguments{runtime: st, args: args}", Rule: "C14.forms"},
@@ -128,6 +130,7 @@ func shiftPredicate(p *an.Prog, f *an.Fn, cond ast.Expr) (string, bool) {
 }
 
 func runC14(c *an.Ctx) {
+	c14paramType(c)
 	p := c.P
 	// ---------------------------------------------------------------- C14.shift
 	const canon = "!HasPipeSlot && piped!=nil"
